@@ -100,10 +100,23 @@ func operandsVerbatim(w *load.World, c *core.Collector) {
 // loopLeftOnlyByExhaustionOrError: the loop with this header is left from its header, or into a
 // return that reports an error; the first other exit, or nil
 func loopOtherExit(f *ssa.Function, hdr *ssa.BasicBlock) *ssa.BasicBlock {
+	// the natural loop of hdr: what reaches one of its back edges without passing hdr
 	in := map[*ssa.BasicBlock]bool{}
-	for _, b := range f.Blocks {
-		if b != hdr && hdr.Dominates(b) && ssax.Reaches(b, hdr) {
-			in[b] = true
+	var stack []*ssa.BasicBlock
+	for _, p := range hdr.Preds {
+		if hdr.Dominates(p) && p != hdr && !in[p] {
+			in[p] = true
+			stack = append(stack, p)
+		}
+	}
+	for len(stack) > 0 {
+		b := stack[len(stack)-1]
+		stack = stack[:len(stack)-1]
+		for _, p := range b.Preds {
+			if p != hdr && !in[p] && hdr.Dominates(p) {
+				in[p] = true
+				stack = append(stack, p)
+			}
 		}
 	}
 	var blocks []*ssa.BasicBlock
